@@ -3,9 +3,11 @@ from __future__ import annotations
 
 import ast
 
+import os
 import z3
 
 from . import smt
+from .core import _has_quantifier
 from .core import (BreakSig, Chooser, ContinueSig, DeadPath, PathBudget, PathState, RaiseSig, ReturnSig, Signal)
 from .smt import NONE, Obligation, Ref
 from .spec import Clause, FnContract, Interference, RaisesClause, Spec
@@ -51,6 +53,8 @@ class ExecBase:
             if meta:
                 m.update(meta)
             self.obligations.append(Obligation(name, self.st.pc, goal, tags, m))
+        if kind == 'ensures' and _has_quantifier(goal):
+            return      # exit-time clause: later clauses do not build on it, and one more quantified fact only slows them down
         self.assume(goal)
 
     def branch(self, cond, label: str) -> bool:
@@ -99,7 +103,11 @@ class ExecBase:
 
     def read_field(self, ref, name: str) -> V:
         ty = self.field_ty(name)
-        term = z3.Select(self.heap_arr(name), ref)
+        arr = self.heap_arr(name)
+        logs = getattr(self, 'reads_log', None)
+        if logs:
+            logs[-1].append((name, arr))
+        term = z3.Select(arr, ref)
         v = from_smt(ty, term)
         if ty.kind in ('list', 'dict', 'set'):
             v.loc = ('field', name, ref)
@@ -209,6 +217,19 @@ class ExecBase:
         elif t.kind == 'tuple':
             for x in v.term:
                 self.assume_type(x)
+
+    def class_facts(self, v: V) -> list:
+        """The class-membership part of assume_type as formulas (no type invariants): used for elements read under a quantifier."""
+        t = v.ty
+        if t.kind != 'obj' or t.cls in ('any', None, 'NoneType') or t.cls.startswith('opt'):
+            return []
+        if t.cls == 'str':
+            return [z3.Or(v.term == NONE, Ref.is_str(v.term)) if t.opt else Ref.is_str(v.term)]
+        cid = smt.CLASSES.get(t.cls)
+        if cid is None:
+            return [] if t.opt else [v.term != NONE]
+        f = smt.issub(smt.tag(v.term), cid)
+        return [z3.Or(v.term == NONE, f) if t.opt else z3.And(v.term != NONE, f)]
 
     def fresh_obj(self, cls: str, base='new') -> V:
         oid = z3.Int(fresh_name(base + '_' + cls))
@@ -327,6 +348,11 @@ class ExecBase:
         s = v.ty.sort()
         nv = s.mk(z3.If(present, keys, z3.Store(keys, n, kt)), z3.If(present, n, n + 1), z3.Store(has, kt, True),
                   z3.Store(val, kt, to_smt(x)), z3.If(present, idx, z3.Store(idx, kt, n)))
+        if not self.spec_mode and os.environ.get('PYVC_NAME_DICTS', '1') == '1':
+            # name the updated dict: later occurrences are a constant instead of copies of the whole update term
+            c = z3.Const(fresh_name('dset'), s)
+            self.assume(c == nv)
+            nv = c
         return V(v.ty, nv, v.loc)
 
     def dict_wf(self, v: V):
